@@ -56,8 +56,9 @@ func mustRunInLoop(b *ssa.BasicBlock) (inLoop bool, always bool) {
 		if len(latches) == 0 {
 			continue
 		}
-		fromB := reach(b, nil)
-		ok := false
+		// b belongs to the natural loop of h iff it reaches a latch without passing h
+		fromB := reach(b, func(from, to *ssa.BasicBlock) bool { return to == h || from == h })
+		ok := b == h
 		for _, t := range latches {
 			if fromB[t] || t == b {
 				ok = true
